@@ -10,6 +10,7 @@ FRAME = ['tfhe_bootstrap_FFT', 'tfhe_bootstrap_woKS_FFT', 'tfhe_bootstrap', 'tfh
          'tGswTLweDecompH (noiseless trivial sample)', 'tGswTorus32PolynomialDecompH (zero polynomial)', 'tGswExternProduct (noiseless trivial operand, twice)', 'tfhe_bootstrap_FFT (noiseless trivial input)']
 
 def run(ctx):
+    import os; os.environ['MALLOC_PERTURB_'] = '165'     # every block the harness processes get from or return to the allocator is filled: memory that a routine never wrote does not look like zeros by luck
     thorough = ctx.tier == 'thorough'
     rng = ctx.rng
     ctx.rule = ('public gate API with real key sets (128-bit default set; thorough adds the 80-bit set, a custom k=2 set and the other back-ends): every gate x every aliasing pattern (result = a, = b, = c, a = b, all one object) '
